@@ -3,7 +3,15 @@
 from the output of tools/seed_matrix.sh and the seeds' notes."""
 import json, os, re, sys
 res = {}
-for line in open(sys.argv[1]):
+lines_in = []
+for fn in sys.argv[1:]:          # later files override earlier results of the same (seed, check)
+    lines_in += open(fn).read().split("\n")
+last = {}
+for line in lines_in:
+    m = re.match(r"(\S+) check=(\S+) ", line)
+    if m:
+        last[(m.group(1), m.group(2))] = line
+for line in last.values():
     m = re.match(r"(\S+) check=(\S+) exit=(\d+) (\d+)s \| ?(.*)", line)
     if not m:
         continue
